@@ -43,6 +43,7 @@ type Contract struct {
 	Ensures   []Clause
 	Universe  map[string]string // parameter -> generator expression for the bounded run
 	AssumeIface map[int]string // interface-level ensures clauses this implementation does not prove (index -> reason)
+	EnsuresExit []Clause // must hold at every os.Exit reached from this function (ghost: exit, stdout, fileWritten, ...)
 	EnsuresB  []Clause // evaluated natively on bounded universes only (never proved, never assumed)
 	Loops     map[string]*LoopSpec
 	Decreases string
@@ -57,6 +58,9 @@ type Contract struct {
 	File      string
 	Opaque    bool
 	Axiom     bool // recursive opaque spec function: also emit the quantified definitional axiom
+	NeedsCLI  bool  // the bounded run executes the built binaries
+	CapQuick, CapThorough int64 // bounded-run tuple caps (0 = default)
+	NoReturn  bool // every path ends the process (os.Exit); callers stop at the call
 	Bounded   bool // no proof attempted: the contract is only evaluated on the real code over a bounded universe
 	Lemma     bool
 }
@@ -98,7 +102,7 @@ func parseContractsP(path string, into map[string]*Contract, p *Program) error {
 		word, rest := splitWord(txt)
 		// optional property tag: ensures [C05 C07] expr
 		tag := ""
-		if (word == "ensures" || word == "ensures_bounded" || word == "requires") && strings.HasPrefix(rest, "[") {
+		if (word == "ensures" || word == "ensures_bounded" || word == "ensures_exit" || word == "requires") && strings.HasPrefix(rest, "[") {
 			if j := strings.Index(rest, "]"); j > 0 {
 				tag = rest[1:j]
 				rest = strings.TrimSpace(rest[j+1:])
@@ -149,6 +153,8 @@ func parseContractsP(path string, into map[string]*Contract, p *Program) error {
 				cur.AssumeIface = map[int]string{}
 			}
 			cur.AssumeIface[idx] = r2
+		case "ensures_exit":
+			cur.EnsuresExit = append(cur.EnsuresExit, Clause{Text: rest, Line: ln + 1, Tag: tag})
 		case "ensures_bounded":
 			cur.EnsuresB = append(cur.EnsuresB, Clause{Text: rest, Line: ln + 1, Tag: tag})
 		case "decreases":
@@ -171,6 +177,12 @@ func parseContractsP(path string, into map[string]*Contract, p *Program) error {
 			cur.Opaque = true
 		case "axiom":
 			cur.Axiom = true
+		case "needs_cli":
+			cur.NeedsCLI = true
+		case "cap":
+			fmt.Sscanf(rest, "%d %d", &cur.CapQuick, &cur.CapThorough)
+		case "noreturn":
+			cur.NoReturn = true
 		case "bounded":
 			cur.Bounded = true
 		case "lemma":
@@ -616,3 +628,22 @@ func clauseFor(c Clause, prop string) bool {
 
 // currentProperty restricts obligations and bounded clauses to those tagged for it.
 var currentProperty string
+
+// importPath resolves a package identifier used in the package's files (alias or default name).
+func (p *Program) importPath(name string) string {
+	for _, f := range p.Pkg.Syntax {
+		for _, im := range f.Imports {
+			path := strings.Trim(im.Path.Value, "\"")
+			if im.Name != nil {
+				if im.Name.Name == name {
+					return path
+				}
+				continue
+			}
+			if ip := p.Pkg.Imports[path]; ip != nil && ip.Name == name {
+				return path
+			}
+		}
+	}
+	return ""
+}
